@@ -18,6 +18,7 @@ class T1TSilicon(object):
         self.read_only = set(range(0, 8)) | set(range(104, 112)) | set(range(122, 128))
         self.state_changes = 0
         self.write_log = []
+        self.write_units = []
         self.cmd_log = []
         self.active = False
 
@@ -66,6 +67,7 @@ class T1TSilicon(object):
                 self._store(addr, data[2], c == 0x53)
                 self.state_changes += 1
                 self.write_log.append(addr)
+                self.write_units.append((addr, 1))
                 return bytes([addr, self.mem[addr] if addr < len(self.mem) else 0])
             return None
         if len(data) == 14 and self.dynamic:
@@ -98,6 +100,7 @@ class T1TSilicon(object):
                     self._store(base + i, data[2 + i], c == 0x54)
                 self.state_changes += 1
                 self.write_log.append(base)
+                self.write_units.append((base, 8))
                 return bytes([blk]) + bytes(self.mem[base:base + 8])
         return None
 
@@ -135,9 +138,9 @@ class T1TLayout(object):
         self.end = size
         self.terminator = terminator
 
-    def header_ok(self):
+    def header_ok(self, lfield=4):
         extra = self.reserved - self.base_reserved
-        for a in range(12, self.ndef_offset + 4):
+        for a in range(12, self.ndef_offset + lfield):
             if a in extra:
                 return False
         return self.ndef_offset + 4 <= 104
